@@ -31,18 +31,18 @@ type Violation struct {
 
 // Result is what every harness command writes for the check driver.
 type Result struct {
-	Command      string        `json:"command"`
-	Behaviours   int           `json:"behaviours"`
-	Steps        int           `json:"steps"`
-	Comparisons  int           `json:"comparisons"`
-	Violations   []Violation   `json:"violations"`
-	Inconclusive []string      `json:"inconclusive"`
-	Notes        []string      `json:"notes"`
-	Samples      []interface{} `json:"samples"`
+	Command      string         `json:"command"`
+	Behaviours   int            `json:"behaviours"`
+	Steps        int            `json:"steps"`
+	Comparisons  int            `json:"comparisons"`
+	Violations   []Violation    `json:"violations"`
+	Inconclusive []string       `json:"inconclusive"`
+	Notes        []string       `json:"notes"`
+	Samples      []interface{}  `json:"samples"`
 	Stats        map[string]int `json:"stats"`
-	TraceFile    string        `json:"trace_file,omitempty"`
-	TraceEvents  int           `json:"trace_events"`
-	Traces       int           `json:"traces"`
+	TraceFile    string         `json:"trace_file,omitempty"`
+	TraceEvents  int            `json:"trace_events"`
+	Traces       int            `json:"traces"`
 }
 
 func newResult(cmd string) *Result {
